@@ -100,9 +100,11 @@ PATS = {
 MODS = ["", "main", "ma", "mainx", "lib", "libfoo.so", "other", "libfoo.so.1", "m", "libc14so", "libc14so.so.7",
         "libc14file", "libc14file.so.7.1.x"]
 REALLIB = "@REALLIB@"       # replaced by the path of a real shared object (file libc14file.so.7.1, soname libc14so.so.7)
-MODPATHS = ["/usr/bin/main", "main", "/x/libfoo.so.1.2", "/nonexistent/other", REALLIB, REALLIB, "lib"]
-LIBS = ["/usr/bin/main", "main", "/x/libfoo.so.1.2", "dir/", "/a/b/other", "ma", "/main/x"]
-SONAMES = [None, None, "libfoo.so.1", "main", ""]
+MODPATHS = ["/usr/bin/main", "main", "/x/libfoo.so.1.2", "/nonexistent/other", REALLIB, REALLIB, "lib", "/x/mainx",
+            "/x/prog_plugin.so"]
+LIBS = ["/usr/bin/main", "main", "/x/libfoo.so.1.2", "dir/", "/a/b/other", "ma", "/main/x", "/x/mainx", "/x/main_plugin.so",
+        "/x/prog_plugin.so", "/x/prog"]
+SONAMES = [None, None, "libfoo.so.1", "main", "", "mainly", "prog"]
 
 
 def gen_opts(rng, ptype, n, names=None, mods=MODS, pmod=0.35):
@@ -195,7 +197,8 @@ def read_pat(out, c):
     items = []
     for _ in range(int(k[1])):
         t = out.next().split()
-        items.append({"type": int(t[1]), "pos": int(t[2]), "patt": unhx(t[3]), "mod": unhx(t[4])})
+        items.append({"type": int(t[1]), "pos": int(t[2]), "patt": unhx(t[3]), "mod": unhx(t[4]),
+                      "exact": int(t[5]) if len(t) > 5 else 0})
     c["items"] = items
     res = []
     for _ in c["queries"]:
@@ -230,8 +233,8 @@ def oracle_tables(c):
 
 
 def c_item(it):
-    return "{| pi_patt := {| pt_type := %s; pt_str := %s |}; pi_mod := %s; pi_pos := %s |}" % (
-        PT.get(it["type"], "PSimple"), cb(it["patt"]), cb(it["mod"]), cbool(it["pos"]))
+    return "{| pi_patt := {| pt_type := %s; pt_str := %s |}; pi_mod := %s; pi_pos := %s; pi_exact := %s |}" % (
+        PT.get(it["type"], "PSimple"), cb(it["patt"]), cb(it["mod"]), cbool(it["pos"]), cbool(it.get("exact", 0)))
 
 
 def c_tables(regok, tbl):
@@ -609,7 +612,7 @@ def impl_json(c):
     out = {}
     if "items" in c:
         out["parsed"] = [{"type": i["type"], "positive": i["pos"], "pattern": i["patt"].decode("latin1"),
-                          "module": i["mod"].decode("latin1")} for i in c["items"]]
+                          "module": i["mod"].decode("latin1"), "exact_module": i.get("exact", 0)} for i in c["items"]]
         out["answers"] = [[n, r, "".join("1" if b else "0" for b in bits)]
                           for (l, s, n), (r, bits) in zip(c["queries"], c["qres"])]
         out["match_pattern_module"] = [[pth, so.decode("latin1") if so is not None else None, r]
